@@ -139,3 +139,46 @@ Proof.
   - now apply negb_true_iff in B.
   - now apply negb_true_iff.
 Qed.
+
+(* ---------- extension: CSV padding count, log levels, truncation ---------- *)
+(* one separator character per new key, as regenerated from CSVOutputFormat.write *)
+Lemma frag_csv_pad (extra : list text) :
+  List.length (repeat comma (List.length extra)) = Z.to_nat (lg_csv_pad 1 (Z.of_nat (List.length extra))).
+Proof. unfold lg_csv_pad. rewrite repeat_length. lia. Qed.
+
+Lemma frag_log_emits cfg level : lg_log_emits cfg level = log_emits cfg level.
+Proof. reflexivity. Qed.
+
+Lemma log_level_filter cfg level : log_emits cfg level = true <-> (cfg <= level)%Z.
+Proof. unfold log_emits. apply Z.leb_le. Qed.
+
+Lemma frag_dump_disabled cfg st :
+  l_dump_level cfg st = if lg_dump_disabled cfg DISABLED_ then (st, None) else (fst (l_dump st), Some (snd (l_dump st))).
+Proof. unfold l_dump_level, lg_dump_disabled. destruct (Z.eqb cfg DISABLED_); reflexivity. Qed.
+
+(* a disabled logger writes nothing and keeps what is pending; otherwise dump is the ordinary one *)
+Lemma dump_disabled_noop st : l_dump_level DISABLED_ st = (st, None).
+Proof. reflexivity. Qed.
+Lemma dump_enabled cfg st : cfg <> DISABLED_ -> l_dump_level cfg st = (l0, Some (snd (l_dump st))).
+Proof. intros H. unfold l_dump_level. apply Z.eqb_neq in H. rewrite H. reflexivity. Qed.
+
+Lemma frag_truncate m s :
+  truncate m s = if lg_truncates (Z.of_nat (List.length s)) (Z.of_nat m)
+                 then firstn (Z.to_nat (lg_truncate_keep (Z.of_nat m))) s ++ dots else s.
+Proof.
+  unfold truncate, lg_truncates, lg_truncate_keep.
+  destruct (Nat.ltb m (List.length s)) eqn:E.
+  - apply Nat.ltb_lt in E. replace (Z.of_nat m <? Z.of_nat (List.length s))%Z with true by lia.
+    replace (Z.to_nat (Z.of_nat m - 3)) with (m - 3)%nat by lia. reflexivity.
+  - apply Nat.ltb_ge in E. replace (Z.of_nat m <? Z.of_nat (List.length s))%Z with false by lia. reflexivity.
+Qed.
+
+(* what is shown never exceeds max_length (for max_length >= 3), and short texts are shown unchanged *)
+Lemma truncate_length m s : (3 <= m)%nat -> (List.length (truncate m s) <= m)%nat.
+Proof.
+  intros Hm. unfold truncate. destruct (Nat.ltb m (List.length s)) eqn:E.
+  - apply Nat.ltb_lt in E. rewrite app_length, firstn_length. cbn. lia.
+  - apply Nat.ltb_ge in E. exact E.
+Qed.
+Lemma truncate_short m s : (List.length s <= m)%nat -> truncate m s = s.
+Proof. intros H. unfold truncate. replace (Nat.ltb m (List.length s)) with false; [reflexivity|]. symmetry. apply Nat.ltb_ge. exact H. Qed.
